@@ -18,21 +18,21 @@ PROPERTY = 'C10'
 OUTCOMES = ['pass', 'fail_output', 'fail_exception', 'all_skipped', 'partly_skipped', 'comment_only']
 EXPECT = {'pass': 'passed', 'fail_output': 'failed', 'fail_exception': 'failed', 'all_skipped': 'skipped',
           'partly_skipped': 'passed', 'comment_only': 'skipped'}
-BOUNDS = {'quick': 'n<=3 doctests (two of them share a callname), 6 outcomes x force-disabled, commands all / list / callname / callname:num; exit status for every n_failed >= 0',
-          'thorough': 'n<=4 doctests'}
+BOUNDS = {'quick': 'n<=3 doctests (two of them share a callname), 6 outcomes x force-disabled x a look-alike of a disabling comment on a later line of the first doctest, commands all / list / callname / callname:num; exit status for every n_failed >= 0',
+          'thorough': 'n<=4 doctests, without the look-alike comment'}
 OUTSIDE = 'process level sys.exit plumbing (the value returned by main() is checked, and that it is 0 or 1); collection itself (C07)'
 ASSUMPTIONS = ['core.parse_doctestables -> the symbolic list of doctests (collection is C07)', '_gather_zero_arg_examples -> nothing']
 
 
 def jobs(tier):
     q = tier == 'quick'
-    return [{'ob': 'tallies_and_selection', 'harness': 'run', 'n': 3 if q else 4, 'splits': [3, 6, 9], 'query_timeout_s': 60,
+    return [{'ob': 'tallies_and_selection', 'harness': 'run', 'n': 3 if q else 4, 'lookalike': q, 'splits': [3, 6, 9], 'query_timeout_s': 60,
              'bounds': BOUNDS[tier]},
             {'ob': 'exit_status', 'harness': 'exit', 'query_timeout_s': 60, 'bounds': 'n_failed any integer >= 0, commands all / a name'}]
 
 
 class Tally(Harness):
-    witnesses = ('all_with_disabled_and_failed', 'named_disabled_runs', 'only_skipped', 'list_runs_nothing', 'last_fails', 'lookalike_comment_on_a_later_line')
+    witnesses = ('all_with_disabled_and_failed', 'named_disabled_runs', 'only_skipped', 'list_runs_nothing', 'last_fails')
 
     def __init__(self, job):
         self.m = hrun.install()
@@ -47,6 +47,8 @@ class Tally(Harness):
         self.look = [z3.Bool('lookalike_comment%d' % i) for i in range(N)]    # only the first doctest's is used (keeps the schedule small)
         self.cmd = z3.Int('command')          # 0 all, 1 list, 2+2i callname of i, 3+2i callname:num of i
         self.base = [self.count >= 1, self.count <= N, self.cmd >= 0, self.cmd < 2 + 2 * self.count]
+        if not job.get('lookalike', True):
+            self.base.append(z3.Not(self.look[0]))      # thorough tier: n = 4 without the look-alike comment (the doubled schedule was not validated end to end)
         for i in range(N):
             self.base += [self.out[i] >= 0, self.out[i] < len(OUTCOMES)]
         self.m['ins'].RT.STUBS['print'] = lambda *a, **k: None
@@ -101,7 +103,7 @@ class Tally(Harness):
             o = OUTCOMES[int(SymInt(self.out[i]))]
             d = bool(SymBool(self.dis[i]))
             la = i == 0 and bool(SymBool(self.look[i]))
-            if la and not d:
+            if la and not d and self.job.get('lookalike', True):
                 ex.witness('lookalike_comment_on_a_later_line', True)
             # doctests 0 and 1 belong to the same callable (f:0, f:1), the others to g2, g3 ...
             callname, num = ('f', i) if i < 2 else ('g%d' % i, 0)
